@@ -32,8 +32,16 @@ VARIANTS = {
     "C[11]+2work": lambda op, nw: qp.ctrl(op, control=[nw, nw + 1], control_values=[1, 1], work_wires=[nw + 2, nw + 3]),
     "C[110]": lambda op, nw: qp.ctrl(op, control=[nw, nw + 1, nw + 2], control_values=[1, 1, 0]),
     "C[110]+2work": lambda op, nw: qp.ctrl(op, control=[nw, nw + 1, nw + 2], control_values=[1, 1, 0], work_wires=[nw + 3, nw + 4]),
+    "C[11]+1zeroed": lambda op, nw: qp.ctrl(op, control=[nw, nw + 1], control_values=[1, 1], work_wires=[nw + 2], work_wire_type="zeroed"),
+    "C[11]+1borrowed": lambda op, nw: qp.ctrl(op, control=[nw, nw + 1], control_values=[1, 1], work_wires=[nw + 2], work_wire_type="borrowed"),
+    "C[01]+1borrowed": lambda op, nw: qp.ctrl(op, control=[nw, nw + 1], control_values=[0, 1], work_wires=[nw + 2], work_wire_type="borrowed"),
+    "C[111]+2borrowed": lambda op, nw: qp.ctrl(op, control=[nw, nw + 1, nw + 2], control_values=[1, 1, 1], work_wires=[nw + 3, nw + 4], work_wire_type="borrowed"),
+    "C[110]+1zeroed": lambda op, nw: qp.ctrl(op, control=[nw, nw + 1, nw + 2], control_values=[1, 1, 0], work_wires=[nw + 3], work_wire_type="zeroed"),
 }
-QUICK_VARIANTS = ["bare", "Adjoint", "Pow2", "Pow-1", "C[1]", "C[10]"]
+for _z in (4, 5, 6, 7, 8, 9, -3, -6):
+    VARIANTS[f"Pow{_z}"] = (lambda z: lambda op, nw: qp.pow(op, z, lazy=True))(_z)
+QUICK_VARIANTS = ["bare", "Adjoint", "Pow2", "Pow-1", "C[1]", "C[10]", "C[11]+1borrowed", "C[11]+1zeroed"]
+NONPARAM_POWERS = ["Pow3", "Pow4", "Pow5", "Pow6", "Pow7", "Pow8", "Pow-2", "Pow-3", "Pow-6"]
 
 
 def build_op(key, variant, ps):
@@ -59,10 +67,15 @@ def apply_rule(op, rule):
     return list(q.queue)
 
 
-def emitted_matrix(emitted, wo):
-    """(U restricted to aux=0 input, aux count): returns (block for aux_out=0, list of blocks aux_out!=0)"""
+def emitted_matrix(emitted, wo, borrowed=()):
+    """-> (block acting on the operator wires, list of blocks that must vanish).
+    Auxiliary wires (allocated work wires, explicit work wires of the operator) are appended after the operator wires.
+    Zeroed / freshly allocated auxiliaries: the emitted unitary restricted to aux=|0..0> input must equal M (x) |0..0> (aux returns
+    to |0>).  BORROWED auxiliaries may hold any state, so the emitted unitary must equal M (x) identity on them: every
+    aux-diagonal block equals the aux=0 block and every aux-off-diagonal block vanishes."""
     has_alloc = any(o.name in ("Allocate", "Deallocate") for o in emitted)
     tape = qp.tape.QuantumScript(emitted)
+    alloc_any = set()
     if has_alloc:
         (tape,), _ = qp.transforms.resolve_dynamic_wires(tape, min_int=100)
     aux = [w for w in tape.wires if w not in wo]
@@ -73,8 +86,27 @@ def emitted_matrix(emitted, wo):
         return U, []
     d = 2 ** len(aux)
     n = 2 ** len(wo)
-    U4 = U.reshape(n, d, n, d)[:, :, :, 0]
-    return U4[:, 0, :], [U4[:, k, :] for k in range(1, d)]
+    U4 = U.reshape(n, d, n, d)
+    main = U4[:, 0, :, 0]
+    zero_blocks = [U4[:, k, :, 0] for k in range(1, d)]
+    bor = [i for i, w in enumerate(aux) if w in set(borrowed)]
+    if bor:
+        # inputs in which only borrowed auxiliaries are excited (the zeroed ones stay |0>)
+        for kin in range(1, d):
+            bits = [(kin >> (len(aux) - 1 - i)) & 1 for i in range(len(aux))]
+            if any(b and i not in bor for i, b in enumerate(bits)):
+                continue
+            for kout in range(d):
+                blk = U4[:, kout, :, kin]
+                zero_blocks.append(blk - main if kout == kin else blk)
+    return main, zero_blocks
+
+
+def _borrowed(op):
+    """explicit work wires the operator declares as borrowed (may be in any state, must be restored)"""
+    if getattr(op, "work_wire_type", None) == "borrowed" or op.hyperparameters.get("work_wire_type") == "borrowed":
+        return list(getattr(op, "work_wires", []) or [])
+    return []
 
 
 def domain_columns(op, n):
@@ -106,7 +138,7 @@ def _num(key, variant, rule_name, params):
         em = apply_rule(op, rule)
         if em is None:
             return False, "rule not applicable at replay"
-        U, rest = emitted_matrix(em, wo)
+        U, rest = emitted_matrix(em, wo, borrowed=_borrowed(op))
         U = np.asarray(sx.evalf(sx.session(), U, {}), dtype=complex) if U.dtype == object else U
         cols = domain_columns(op, M.shape[0])
         sel = slice(None) if cols is None else cols
@@ -159,7 +191,7 @@ def work(item):
             em = apply_rule(op, rule)
             if em is None:
                 raise sx.Unsupported("rule not applicable on symbolic instance")
-            U, rest = emitted_matrix(em, wo)
+            U, rest = emitted_matrix(em, wo, borrowed=_borrowed(op))
             return M, U, rest, [o.name for o in em], op
 
         def consume(S, v, i, rname=rname, oname=oname):
@@ -193,11 +225,16 @@ def work(item):
 def run(ctx):
     ctx.level = "proof"
     insts = [i for i in registry.instances()]
-    variants = QUICK_VARIANTS if ctx.tier == "quick" else list(VARIANTS)
+    variants = QUICK_VARIANTS if ctx.tier == "quick" else [v for v in VARIANTS]
     items = []
     for i in insts:
-        for v in variants:
+        vs = list(variants)
+        if i.nparams == 0 and i.nwires <= 3:
+            vs += [v for v in NONPARAM_POWERS if v not in vs]
+        for v in vs:
             if i.nwires >= 4 and v.startswith("C[") and (ctx.tier == "quick" or v not in ("C[1]", "C[0]")):
+                continue
+            if i.nwires == 3 and "+" in v and ctx.tier == "quick":
                 continue
             if i.nwires == 3 and "110" in v and ctx.tier == "quick":
                 continue
